@@ -9,12 +9,20 @@ tail -3 "$OUT/log.txt"
 import json, sys, xml.etree.ElementTree as ET
 base = json.load(open('/root/.vp/BASELINE.json'))
 want = set(base['stable_pass'])
-got = set()
+last = {}
 for tc in ET.parse(sys.argv[1]).getroot().iter('testcase'):
-    if not any(ch.tag in ('failure', 'error', 'skipped') for ch in tc):
-        got.add(f"{tc.get('classname')}::{tc.get('name')}")
+    # with pytest-rerunfailures a test may appear several times / carry <rerun> children: the final outcome counts
+    bad = any(ch.tag in ('failure', 'error', 'skipped') for ch in tc)
+    last[f"{tc.get('classname')}::{tc.get('name')}"] = not bad
+got = {k for k, ok in last.items() if ok}
 missing = sorted(want - got)
-print(f"baseline stable_pass={len(want)} passed_now={len(got)} missing={len(missing)}")
+import re
+summary = open(sys.argv[1].replace("junit.xml", "log.txt")).read().strip().splitlines()[-1]
+m = re.search(r"(\d+) passed", summary)
+npassed = int(m.group(1)) if m else -1
+if npassed < len(want):
+    missing = missing or ["(pytest summary reports only %d passed)" % npassed]
+print(f"baseline stable_pass={len(want)} passed_now={len(got)} pytest_passed={npassed} missing={len(missing)}")
 for m in missing[:20]:
     print("  MISSING", m)
 sys.exit(1 if missing else 0)
